@@ -291,7 +291,6 @@ class MeshTet1(MeshSimplex, Mesh3D):
                 p[:, nv:(nv + nn)] = .5 * (p[:, i] + p[:, j])
 
                 nv += nn
-                assert len(np.unique(p[:, :nv].T, axis=0)) == nv
                 i, j = self._find_nz(
                     split_edge[:2, nix],
                     np.vstack((split_edge[2, nix],) * 2),
